@@ -201,6 +201,9 @@ def binop(ex, st, op, a, b, node=None):
         n = b.conc()
         if n is not None and a.concrete:
             return [(st, VSeq(a.items * n, kind=a.kind))]
+        if not st.spec:
+            ex.used_stubs.add('list * unknown count: an unknown list (used for SQL placeholder lists only)')
+            return [(st, VOpaque(name='repeated'))]
         raise Unsupported('sequence repetition with symbolic operands')
     # ---- strings
     if isinstance(a, VStr) and isinstance(b, VStr) and isinstance(op, ast.Add):
@@ -530,7 +533,13 @@ def getitem(ex, st, base, idx, node=None):
             # unknown container, unknown key: unknown, but the same item for the same key while nothing was mutated
             f = z3.Function('opaque_item2_%d' % st.epoch, ObjSort, ObjSort, ObjSort)
             return [(st, VOpaque(f(base.t, idx.t)))]
-        return [(st, VOpaque(name='item'))]
+        res_ = VOpaque(name='item')
+        if isinstance(idx, VSeq) and not st.spec:
+            # lookup with a composite key: recorded (pure event) so that trace clauses can inspect the key
+            from .engine import Event
+            ev_ = Event('getitem', [base, idx], {}, res_, dict(st.ghost), getattr(node, 'lineno', 0), recv=base)
+            st.trace.append(ev_)
+        return [(st, res_)]
     raise Unsupported('subscript of %r (line %s)' % (base, getattr(node, 'lineno', '?')))
 
 
@@ -1629,7 +1638,11 @@ def str_m_join(ex, st, selfv, args, kwargs, node):
             res.append((s2, sq))
             continue
         if not sq.concrete:
-            raise Unsupported('str.join over a sequence of symbolic length')
+            if st.spec:
+                raise Unsupported('str.join over a sequence of symbolic length')
+            ex.used_stubs.add('sep.join(list of unknown length): an unknown string')
+            res.append((s2, VStr(z3.String(uid('joined')), isbytes=selfv.isbytes)))
+            continue
         t = None
         for k, x in enumerate(sq.items):
             if not isinstance(x, VStr):
@@ -1637,6 +1650,12 @@ def str_m_join(ex, st, selfv, args, kwargs, node):
             t = x.t if t is None else z3.Concat(t, selfv.t, x.t) if not (z3.is_string_value(selfv.t) and selfv.t.as_string() == '') else z3.Concat(t, x.t)
         res.append((s2, VStr(t if t is not None else z3.StringVal(''), isbytes=selfv.isbytes)))
     return res
+
+
+@method('str', 'format')
+def str_m_format(ex, st, selfv, args, kwargs, node):
+    ex.used_stubs.add('str.format(...): an unknown string (used for SQL / log text only)')
+    return [(st, VStr(z3.String(uid('formatted'))))]
 
 
 @method('str', 'encode')
